@@ -10,8 +10,10 @@ from hypothesis import strategies as st
 
 from vlib import dm14scen as D
 from vlib import world as W
+from vlib import simbus
+from vlib import refcodec as R
 
-FATES = ["ok", "ok", "wrong_key", "refuse_proceed", "respond_error", "absent"]
+FATES = ["ok", "ok", "wrong_key", "refuse_proceed", "respond_error", "absent", "fail_after_proceed"]
 
 
 def _errors():
@@ -29,12 +31,19 @@ def _strategy():
             fate = draw(st.sampled_from(FATES))
             if fate == "wrong_key" and not seed_key:
                 fate = "respond_error"
+            if fate == "fail_after_proceed" and seed_key:
+                fate = "respond_error"          # (the scripted device has no seed/key exchange)
             size = draw(st.sampled_from([1, 2, 4]))
             nb = draw(st.sampled_from([1, 4, 7, 8, 20]))
             op = {"op": draw(st.sampled_from(["read", "write"])), "fate": fate, "size": size, "count": max(1, nb // size),
                   "data_seed": draw(st.integers(0, 10 ** 5)), "gap_after": draw(st.sampled_from([0.001, 0.001, 0.05, 0.05, 0.5, 1.5, 3.5])),
                   "addr_sel": draw(st.sampled_from([0, 0, 0, 1, 2])), "raw": draw(st.booleans())}
-            if fate == "respond_error":
+            if fate == "fail_after_proceed":
+                # a scripted device (in place of the library server) answers a READ with DM15 'proceed' and then, instead of the
+                # data, with DM15 'operation failed' carrying an error indicator
+                op["op"] = "read"
+                fate = op["fate"] = "fail_after_proceed"
+            if fate in ("respond_error", "fail_after_proceed"):
                 op["error"] = draw(st.one_of(st.sampled_from(_errors()), st.sampled_from([0xBEEF, 0x3, 0xABCDE, 0x7FFFFF])))
                 op["edcp"] = draw(st.sampled_from([6, 7]))
             if fate == "absent":
@@ -45,7 +54,7 @@ def _strategy():
         # an operation that follows within a millisecond must not be one for which the harness takes the server off the bus:
         # the closing DM14 of the operation before may still be in flight (latency up to 5 ms) and would be lost with it
         for a, b in zip(ops, ops[1:]):
-            if b["fate"] == "absent" and a["gap_after"] < 0.02:
+            if b["fate"] in ("absent", "fail_after_proceed") and a["gap_after"] < 0.02:
                 a["gap_after"] = 0.05
         return {"seed_key": seed_key,
                 "seeds": draw(st.lists(st.one_of(st.sampled_from([0x0000, 0xFFFF, 1, 0xFFFE, 0x8000, 0x00FF]), st.integers(0, 0xFFFF)), min_size=1, max_size=3)),
@@ -68,7 +77,7 @@ class C18:
     RULE = ("Hypothesis draws seed/key off or on (generated seeds and bijective key algorithm) and a history of 1..6 reads/writes "
             "(1..20 bytes, object sizes 1/2/4, same or different memory address) each with a fate: success / wrong key (one bit flipped in the low byte, the high byte or the top bit, "
             "0x0000, 0xFFFF, another algorithm) / proceed callback refuses / respond(False, error, edcp) with every J1939Error value "
-            "and undefined ones, edcp 6 or 7 / server absent with max_timeout in {0.1,0.5,1,2 s}; gaps 0.05..3.5 s; a final "
+            "and undefined ones, edcp 6 or 7 / a scripted device that answers a read with 'proceed' and then with 'operation failed' + error indicator / server absent with max_timeout in {0.1,0.5,1,2 s}; gaps 0.05..3.5 s; a final "
             "well-formed read always follows; non-trivial = a failure followed by an operation that must succeed; distinct = "
             "distinct histories")
     ASSUMPTIONS = [
@@ -128,6 +137,28 @@ class C18:
                     else:
                         plans.append({"proceed": False, "error": o["error"], "edcp": o["edcp"], "tx": ti})
             dw.respond_plan = plans
+            # the scripted device: speaks for the server's address while the library server is off the bus
+            dev = simbus.RawNode(dw.w.bus, "D")
+            dev_active = [None]
+
+            def dev_rx(frame):
+                o = dev_active[0]
+                f = R.id_fields(frame.can_id)
+                if o is None or not frame.ext or f["pf"] != 0xD9 or f["ps"] != sas[1] or f["sa"] != sas[0] or len(frame.data) != 8:
+                    return
+                cmd = (frame.data[1] >> 1) & 7
+                if cmd != 1 or o.get("_answered"):         # (1 = read request; the closing DM14 is not answered)
+                    return
+                o["_answered"] = True
+                count = frame.data[0]
+                direct = (frame.data[1] >> 4) & 1
+                cid = R.mk_id(6, 0, 0xD8, sas[0], sas[1])
+                err = o["error"]
+                proceed = [count, (direct << 4) + (0 << 1) + 1, 0xFF, 0xFF, 0xFF, 0xFF, 0xFF, 0xFF]
+                failed = [0x00, (direct << 4) + (5 << 1) + 1, err & 0xFF, (err >> 8) & 0xFF, (err >> 16) & 0xFF, o["edcp"], 0xFF, 0xFF]
+                dw.w.sim.schedule(dw.w.sim.now + 0.001, lambda: dev.send(cid, proceed))
+                dw.w.sim.schedule(dw.w.sim.now + 0.004, lambda: dev.send(cid, failed))
+            dev.on_rx = dev_rx
 
             def before(ti, tx):
                 o = ops[ti]
@@ -138,14 +169,19 @@ class C18:
                              "ffff": (lambda s: 0xFFFF if right(s) != 0xFFFF else 0xFFFE),
                              "other": (lambda s: (right(s) + 0x1357) & 0xFFFF)}[w_]
                     dw.client.query.set_seed_key_algorithm(wrong)
-                if o["fate"] == "absent":
+                if o["fate"] in ("absent", "fail_after_proceed"):
                     dw.w.bus.set_silenced("S", True)
+                if o["fate"] == "fail_after_proceed":
+                    dev_active[0] = dict(o)
 
             def after(ti, tx, res):
+                dev_active[0] = None
                 o = ops[ti]
                 if o["fate"] == "wrong_key":
                     dw.client.query.set_seed_key_algorithm(right)
-                if o["fate"] == "absent":
+                if o["fate"] == "fail_after_proceed":
+                    D.sk.FAKE_TIME.sleep(0.02)       # (the client's frames to the silenced library server are still in flight)
+                if o["fate"] in ("absent", "fail_after_proceed"):
                     dw.w.bus.set_silenced("S", False)
 
             dw.run_client(txs, before, after)
@@ -206,7 +242,7 @@ class C18:
                 if "No response from server" not in text:
                     V("absent-wrong-text", "absent server: exception text %r" % text[:120], site)
             else:
-                code = {"wrong_key": 0x1003, "refuse_proceed": None, "respond_error": o.get("error")}[fate]
+                code = {"wrong_key": 0x1003, "refuse_proceed": None, "respond_error": o.get("error"), "fail_after_proceed": o.get("error")}[fate]
                 if code is not None:
                     if hex(code) not in text:
                         V("error-code-missing", "operation %d (fate %s): exception %r does not name error code %s" % (ti, fate, text[:120], hex(code)), site)
